@@ -429,6 +429,9 @@ func init() {
 			for _, v := range SetterValues["search"] {
 				alpha = append(alpha, Op{Kind: "search", A: v})
 			}
+			// SetSearch with the URL's own current Search(): the one value for which "nothing changed" shortcuts are
+			// tempting; the list must still be the parse of the query afterwards
+			alpha = append(alpha, Op{Kind: "search", A: SelfValue})
 			for _, k := range setterOrder {
 				if k == "search" {
 					continue
@@ -439,7 +442,7 @@ func init() {
 					}
 				}
 			}
-			alpha = append(alpha, Op{Kind: "clone"}, Op{Kind: "resolve", A: "?x=1&y"}, Op{Kind: "resolve", A: "#f"}, Op{Kind: "resolve", A: "z"})
+			alpha = append(alpha, Op{Kind: "observe"}, Op{Kind: "clone"}, Op{Kind: "resolve", A: "?x=1&y"}, Op{Kind: "resolve", A: "#f"}, Op{Kind: "resolve", A: "z"})
 			starts := []string{"http://h/p?a=1&b=2#f", "http://h/p", "foo://h/p?", "mailto:x y  ?q=1#f", "data: text  ", "file:///C:/d?a=b&a=c", "foo:/p?a%26b=%3D&c+d=e+f"}
 			depth := 4
 			if c.Thorough() {
